@@ -56,13 +56,8 @@ func r12ab(c *an.Ctx) {
 		if !ok {
 			return false
 		}
-		// the channel is the captured semaphore
-		for _, l := range an.BackSlice(s.Chan, an.SliceOpts{}) {
-			if l.Kind == "free" && strings.HasPrefix(l.Path, "*chan") {
-				return true
-			}
-		}
-		return false
+		// the channel is the collection made by commit: captured by the goroutine's literal or handed to it as an argument
+		return an.CellHolds(an.OriginInSpawner(&g.Go.Call, g.Fn, s.Chan), mk)
 	}
 	mn, mx, ok := an.PathCount(g.Fn, nil, isSend, an.IsExit)
 	c.Ob("(*core/controlcommands.CommandQueue).commit[go per-target]|one-result-per-path", g.Go.Pos(), ok && mn == 1 && mx == 1,
